@@ -25,14 +25,14 @@ type srcChain struct {
 	id       string
 	top      int64
 	partSize int
-	raw      map[int64][]byte             // wire bytes of block h
-	ids      map[int64]types.BlockID      // hash + parts header of block h
-	hdr      map[int64]*types.Header      // decoded headers (read-only)
-	sets     map[int64]*types.ValidatorSet // the set in force at height h (signs the commit for block h), h = 1..top
-	mem      map[int64][]member           // the same, as plain data for the oracle's own tally
+	raw      map[int64][]byte                 // wire bytes of block h
+	ids      map[int64]types.BlockID          // hash + parts header of block h
+	hdr      map[int64]*types.Header          // decoded headers (read-only)
+	sets     map[int64]*types.ValidatorSet    // the set in force at height h (signs the commit for block h), h = 1..top
+	mem      map[int64][]member               // the same, as plain data for the oracle's own tally
 	keys     map[string]crypto.PrivKeyEd25519 // by address: V0 and the harness validators
-	foreign  []crypto.PrivKeyEd25519      // keys of nobody
-	changes  []int64                      // heights h >= 2 whose set differs from the one at h-1 (members, powers or order)
+	foreign  []crypto.PrivKeyEd25519          // keys of nobody
+	changes  []int64                          // heights h >= 2 whose set differs from the one at h-1 (members, powers or order)
 	v0       []byte
 }
 
